@@ -273,14 +273,68 @@ fn err_carries_nothing(cfg: &RunCfg, rep: &mut Report) {
     }
 }
 
+/// A source whose last module is cut off at a boundary between definitions (its END is missing): either the whole
+/// compilation fails, or the definitions of the cut module that are in the text are accounted for like any others.
+fn truncated_last_module(cfg: &RunCfg, rep: &mut Report) {
+    let mut rng = Rng::new(cfg.seed ^ 0x7C10);
+    for k in 0..cfg.budget(16, 120) {
+        let mut g = Gen { rng: &mut rng, info_objects: false };
+        let m1 = g.module(&format!("Whole{k}"), &format!("8{k}x0"), 3);
+        let m2 = g.module(&format!("Cut{k}"), &format!("8{k}x1"), 4);
+        let t2 = m2.text();
+        // cut in front of END, in front of the last definition, or (every fourth) behind the header
+        let kept: Vec<&D> = match k % 4 {
+            0 | 1 => m2.defs.iter().collect(),
+            2 => m2.defs[..m2.defs.len() - 1].iter().collect(),
+            _ => vec![],
+        };
+        let at = match k % 4 {
+            0 | 1 => t2.rfind("END"),
+            2 => m2.defs.last().and_then(|d| t2.find(&d.text)),
+            _ => m2.defs.first().and_then(|d| t2.find(&d.text)),
+        };
+        let Some(at) = at else { continue };
+        let cut = t2[..at].trim_end().to_string() + if k % 2 == 0 { "" } else { "\n" };
+        // as the second module of one source, and as a source of its own behind a complete one
+        let sources: Vec<String> = if k % 3 == 0 { vec![m1.text(), cut.clone()] } else { vec![format!("{}\n{}", m1.text(), cut)] };
+        let src2 = sources.clone();
+        let r = std::panic::catch_unwind(std::panic::AssertUnwindSafe(move || {
+            let mut c = Compiler::<RasnBackend, _>::new().add_asn_literal(src2[0].clone());
+            for s in &src2[1..] {
+                c = c.add_asn_literal(s.clone());
+            }
+            c.compile_to_string()
+        }));
+        rep.evaluations += 1;
+        match r {
+            Ok(Err(_)) => rep.count("truncated:err"),
+            Ok(Ok(res)) => {
+                rep.count("truncated:ok");
+                let squeezed: String = res.generated.chars().filter(|c| !c.is_whitespace()).collect();
+                let warnings: Vec<String> = res.warnings.iter().map(|w| w.to_string()).collect();
+                for d in kept.iter().filter(|d| !d.no_output() && d.shape != "UpObj") {
+                    let rn = d.rust_name();
+                    let represented = ["struct", "enum", "type", "static", "const"].iter().any(|kw| squeezed.contains(&format!("pub{kw}{rn}")));
+                    let warned = warnings.iter().any(|w| w.contains(&format!(" {}:", d.name)));
+                    if !represented && !warned {
+                        rep.unsat("", false, json!({"why": format!("the compilation of a source whose last module is cut off (no END) is answered with Ok, and `{}` of that module is neither represented nor warned about", d.name), "case": {"kind": "truncated", "sources": sources}}));
+                        break;
+                    }
+                }
+            }
+            Err(p) => rep.unsat("", false, json!({"why": format!("panic: {}", panic_msg(p)), "case": {"kind": "truncated", "sources": sources}})),
+        }
+    }
+}
+
 pub fn run(cfg: &RunCfg) -> Report {
     let mut rep = Report::new(
         "C10",
-        "module sets (1..4 modules, 1..40 assignments each: 16 type shapes, aliases / wrappers / lists of earlier types, builtin and referenced-type values, classes + objects, parameterized templates + instances; differing tagging / extensibility defaults; in a third of the sets one assignment is repeated under the same name in another module) compiled without faults and with 1..3 assignments (in every eighth, small, set: all assignments) replaced by REAL / VideotexString / inverted range / unsupported value form / MACRO. Oracle: every assignment is represented under its mangled name in its own module, or named in a warning (REAL / VideotexString warnings carry no name: matched by count), or of a no-output category; items of definitions that do not depend on a replaced one are byte-identical with and without the faults; Err writes nothing. Model tie: the sequence of emitted definitions equals the pipeline skeleton's",
+        "module sets (1..4 modules, 1..40 assignments each: 16 type shapes, aliases / wrappers / lists of earlier types, builtin and referenced-type values, classes + objects, parameterized templates + instances; differing tagging / extensibility defaults; in a third of the sets one assignment is repeated under the same name in another module) compiled without faults and with 1..3 assignments (in every eighth, small, set: all assignments) replaced by REAL / VideotexString / inverted range / unsupported value form / MACRO. Oracle: every assignment is represented under its mangled name in its own module, or named in a warning (REAL / VideotexString warnings carry no name: matched by count), or of a no-output category; items of definitions that do not depend on a replaced one are byte-identical with and without the faults; Err writes nothing; a source whose last module is cut off at a boundary between definitions gives Err, or accounts for what is in the text. Model tie: the sequence of emitted definitions equals the pipeline skeleton's",
     );
     let cases: Vec<Case> = if let Some(r) = &cfg.replay {
         let r = r.get("case").unwrap_or(r);
-        if r["kind"] == "err" {
+        if r["kind"] == "err" || r["kind"] == "truncated" {
             vec![]
         } else {
             vec![Case::from_json(r)]
@@ -388,8 +442,9 @@ pub fn run(cfg: &RunCfg) -> Report {
                 "warnings": of.warnings, "model": ans[2 * k + 1].chars().take(300).collect::<String>()}));
         }
     }
-    if cfg.replay.is_none() || cfg.replay.as_ref().map(|r| r.get("case").unwrap_or(r)["kind"] == "err").unwrap_or(false) {
+    if cfg.replay.is_none() || cfg.replay.as_ref().map(|r| { let k = &r.get("case").unwrap_or(r)["kind"]; k == "err" || k == "truncated" }).unwrap_or(false) {
         err_carries_nothing(cfg, &mut rep);
+        truncated_last_module(cfg, &mut rep);
     }
     rep
 }
